@@ -1010,6 +1010,16 @@ class BoundM:
         return "bound(%s)" % self.name
 
 
+class Picks:
+    """``A[[i, j, ...]]`` with literal positions (normalised against the axis length) of a 1-d term."""
+
+    def __init__(self, base, positions):
+        self.base, self.positions = base, list(positions)
+
+    def __repr__(self):
+        return "Picks(%r @ %r)" % (self.base, self.positions)
+
+
 class EnumV:
     def __init__(self, seq):
         self.seq = seq
@@ -1205,6 +1215,12 @@ class AInterp(Interp):
 
     def ev_Subscript(self, e, st, frame):
         base = self.ev(e.value, st, frame)
+        if isinstance(base, Nd) and base.ndim == 1 and isinstance(e.slice, (ast.List, ast.Tuple)) and e.slice.elts:
+            ps = [as_lin_val(self.ev(x, st, frame)) for x in e.slice.elts]
+            if all(p_ is not None for p_ in ps):
+                ns = [self.norm_index(p_, base.shape[0], st) for p_ in ps]
+                if all(n_ is not None for n_ in ns):
+                    return Picks(base, ns)
         if isinstance(base, Nd):
             spec = self.parse_subscript(base, e.slice, st, frame, allow_raw=True)
             if spec is None:
